@@ -108,6 +108,12 @@ let () = each_line (fun line ->
                        (List.length text - List.length rest) (show_vals vs) (hex_of_bytes a)
                    | Null -> "SCAN-NULL" | Unmod -> "SCAN-UNMODELLED" | NoFuel -> "SCAN-NOFUEL")
              | Null -> "COUNT-NULL" | Unmod -> "COUNT-UNMODELLED" | NoFuel -> "COUNT-NOFUEL"))
+      | "cal" :: secs :: _ ->
+        (* the calendar of the model: localtime, and mktime of its result *)
+        let s = z_of_string secs in
+        let (((((y, mo), d), h), mi), se) = date_of_secs s in
+        Printf.sprintf "D=%s-%s-%s-%s-%s-%s S=%s" (z_to_string y) (z_to_string mo) (z_to_string d)
+          (z_to_string h) (z_to_string mi) (z_to_string se) (z_to_string (secs_of_date y mo d h mi se))
       | "sc" :: h :: _ -> count_scan (bytes_of_hex h)
       | _ -> "BADCASE"
     with Failure m -> "DRIVER-ERROR " ^ m
